@@ -53,6 +53,15 @@ def impl_tables(d):
 
 def run_case(ctx, rec, s, j, tz="UTC", fmt=cli.fmt_time, pick="first", want_model=True):
     _CASE[0] += 1
+    # a legitimate option a user may add to any command: -v / -vv / -vvv (with --logfile)
+    cli.VERBOSITY[0] = ctx.rng.choice([0, 0, 0, 1, 2, 3, 4]) if _CASE[0] % 3 == 0 else 0
+    try:
+        return _run_case(ctx, rec, s, j, tz, fmt, pick, want_model)
+    finally:
+        cli.VERBOSITY[0] = 0
+
+
+def _run_case(ctx, rec, s, j, tz, fmt, pick, want_model):
     name = "c%d" % _CASE[0]
     files = cli.write_dataset(ctx.tmp, name, *rec.rows(), fmt=fmt)
     db = ctx.scratch(name + ".sqlite3")
@@ -66,7 +75,9 @@ def run_case(ctx, rec, s, j, tz="UTC", fmt=cli.fmt_time, pick="first", want_mode
     res["classify"] = cli.classify(db, s, j)
     d = cli.dump(db, ["grid_time_flags", "storm", "zeta_interval", "zeta_interval_storm", "storm_total_rain_depth", "thresholds"])
     res["impl"] = impl_tables(d)
-    if want_model:
+    if want_model == "by-stretch":
+        res["model"] = model_by_stretch(ctx, loaded, s, j, pick)
+    elif want_model:
         m = ctx.driver.call("classify.f", {"db": db_payload(loaded), "s": f2h(s), "j": f2h(j), "pick": pick})
         if m["outcome"] == "ok":
             m["pairs"] = sorted(m["pairs"])
@@ -77,8 +88,36 @@ def run_case(ctx, rec, s, j, tz="UTC", fmt=cli.fmt_time, pick="first", want_mode
     return res
 
 
+def model_by_stretch(ctx, loaded, s, j, pick="first"):
+    """The model evaluated stretch by stretch at index level (linear in the record length): same result
+    as `classify.f`, used for records of tens of thousands of samples."""
+    step = loaded["time_grid"][0][0]
+    st = stretches(loaded)
+    out = {"outcome": "ok" if st else "no_intervals", "flags": [], "interstorms": [], "pairs": [], "strict": True, "depths": []}
+    for l, rows in sorted(st.items()):
+        ep = [r[0] for r in rows]
+        m = ctx.driver.call("classifyidx.f", {"s": f2h(s), "j": f2h(j), "dt": step, "zeta": [f2h(r[1]) for r in rows],
+                                              "rain": [f2h(r[2]) for r in rows], "pick": pick})
+        out["flags"] += [[e] + f for e, f in zip(ep, m["flags"])]
+        out["interstorms"] += [[ep[a], ep[b - 1]] for a, b in m["interstorms"]]
+        out["pairs"] += [[[ep[p[0][0]], ep[p[0][1] - 1] + step], [ep[p[1][0]], ep[p[1][1]]]] for p in m["pairs"]]
+        out["strict"] = out["strict"] and m["strict"]
+    rain = loaded["rainfall_intensity"]
+    for p in out["pairs"]:
+        a, b = p[0]
+        d = 0.0
+        for x in rain:
+            if a <= x[0] and x[1] <= b:
+                d += x[2] * (x[1] - x[0]) / 3600.0
+        out["depths"].append([a, f2h(d)])
+    out["pairs"].sort()
+    out["interstorms"].sort()
+    out["flags"].sort()
+    return out
+
+
 def _rm(files, db):
-    for p in list(files) + [db, db + "-journal"]:
+    for p in list(files) + [db, db + "-journal", db + ".log"]:
         try:
             os.remove(p)
         except OSError:
